@@ -15,7 +15,7 @@
 Require Import List Arith Relations.
 From Dasp Require Import Base.Res Graph.Dfs Graph.Process Graph.ProcessSpec Graph.DfsProofs
   Graph.ProcessProofs Graph.EvalProofs Graph.ExtraProofs Graph.FuelBound Graph.ProcessPanic
-  Graph.ProcessPanicProofs Graph.GraphExamples.
+  Graph.ProcessPanicProofs Graph.GraphExamples Graph.NodeData Graph.NodeDataProofs.
 Import ListNotations.
 
 (* the call returns: no panic, no fuel exhaustion of the modelled loops *)
@@ -163,3 +163,44 @@ Proof.
   intros W. exact (conj wf_empty (conj (@wf_add_node W) (conj (@wf_add_edge W) (@wf_remove_node W)))).
 Qed.
 Print Assumptions c09_wf_by_construction.
+
+(* ---- the NodeData constructors (lib.rs:259-301): which node and which buffers they store ---- *)
+
+(* new / new1 / new2 / boxed / boxed1 / boxed2: the node (boxed by [box] for the boxed forms) and
+   the given buffers, resp. one or two silent buffers *)
+Theorem c09_node_data_constructors : forall (Buf T U : Type) (silent : Buf) (box : T -> U) (node : T)
+  (buffers : list Buf),
+  (nd_new node buffers = mk_node_data node buffers) /\
+  (nd_new1 silent node = mk_node_data node [silent]) /\
+  (nd_new2 silent node = mk_node_data node [silent; silent]) /\
+  (nd_boxed box node buffers = mk_node_data (box node) buffers) /\
+  (nd_boxed1 silent box node = mk_node_data (box node) [silent]) /\
+  (nd_boxed2 silent box node = mk_node_data (box node) [silent; silent]).
+Proof. exact @constructors_spec. Qed.
+Print Assumptions c09_node_data_constructors.
+
+(* a node built by a short-hand constructor and added to a graph (also into a re-used vacant slot of
+   a StableGraph): the graph holds that node under the returned index, all other slots are as
+   before, and what an Input referring to it shows (the [bufs] of the theorems above, here
+   [nd_buffers]) is the documented number of silent buffers -- until the node is processed *)
+Theorem c09_constructed_node_in_graph : forall (Buf T : Type) (silent : Buf) (c : ctor) (node : T)
+  (g : graph (node_data Buf T)), free_ok g ->
+  let g' := fst (add_node (construct silent c node) g) in
+  let i := snd (add_node (construct silent c node) g) in
+  option_map nd_node (weight g' i) = Some node /\
+  option_map nd_buffers (weight g' i) = Some (repeat silent (ctor_buffers c)) /\
+  (forall m, m <> i -> weight g' m = weight g m) /\
+  free_ok g'.
+Proof. exact @constructed_node_in_graph. Qed.
+Print Assumptions c09_constructed_node_in_graph.
+
+(* its hypothesis (the free list names slots of the slot vector) holds of every graph built with
+   the container operations *)
+Theorem c09_free_list_by_construction : forall (W : Type),
+  free_ok (@empty_graph W) /\
+  (forall (g : graph W) w, free_ok g -> free_ok (fst (add_node w g))) /\
+  (forall (g g' : graph W) a b, free_ok g -> add_edge a b g = Ok g' -> free_ok g') /\
+  (forall (g : graph W) a, free_ok g -> free_ok (fst (remove_node a g))) /\
+  (forall (g : graph W) n w, free_ok g -> free_ok (set_weight g n w)).
+Proof. exact @free_ok_by_construction. Qed.
+Print Assumptions c09_free_list_by_construction.
